@@ -56,13 +56,22 @@ func init() {
 			if _, err := srv.Write([]byte(l + "\r\n")); err != nil {
 				break
 			}
+			if in["paced"] == "1" {
+				// one line at a time: the next line is only sent when the handlers of this one have returned
+				srv.SetWriteDeadline(time.Now().Add(3 * time.Second))
+				srv.Write([]byte("PING :pace\r\n"))
+				select {
+				case <-pong:
+				case <-time.After(20 * time.Second):
+				}
+			}
 		}
 		srv.SetWriteDeadline(time.Now().Add(3 * time.Second))
 		srv.Write([]byte("PING :sync\r\n"))
 		select {
 		case <-pong:
 		case <-ret:
-		case <-time.After(4 * time.Second):
+		case <-time.After(20 * time.Second):
 		}
 		cl.Close()
 		srv.Close()
@@ -76,8 +85,11 @@ func init() {
 			if e == nil {
 				break // the client disconnects with ErrParseEvent
 			}
-			want = append(want, showEvent(e))
-			if m := c.L.Call("parse", hx(l)); m != showEvent(e) {
+			// the reference is the proved parser (Lean `parseEvent`, equal to the grammar's meaning on grammatical lines), not a
+			// second call of the implementation — which could be wrong in the same way if it keeps state between calls
+			m := c.L.Call("parse", hx(l))
+			want = append(want, m)
+			if m != showEvent(e) {
 				c.R.Mismatch("parse", map[string]string{"raw": hx(l)}, showEvent(e), m)
 			}
 		}
@@ -92,9 +104,9 @@ func init() {
 			if i < len(want) {
 				w = want[i]
 			}
-			c.R.Violation("wire.parse", hin, fmt.Sprintf("event %d: %s", i, g), w, "what the handlers were handed differs from ParseEvent(line) for a line the server wrote")
+			c.R.Violation("wire.parse", hin, fmt.Sprintf("event %d: %s", i, g), w, "what the handlers were handed differs from the parse of the line the server wrote")
 		}
-		c.R.Count("wireparse/"+fmt.Sprint(len(lines))+in["l0"], true, "wire-parse")
+		c.R.Count("wireparse/"+in["paced"]+fmt.Sprint(len(lines))+in["l0"], true, "wire-parse")
 	}
 
 	// the parser is a function of the line: parsing other lines in between must not change the result
@@ -119,6 +131,8 @@ func runC02Wire(c *Ctx) {
 		{"@time=2024-02-03T04:05:06.789Z;+k=" + long(4200) + " :a!b@c PRIVMSG #c :after a long tag section", ":a!b@c PRIVMSG #c :next"},
 		{"@+a=" + long(4000) + ";+b=" + long(4000) + " :n!u@h PRIVMSG #chan :" + long(400), ":n!u@h NOTICE me :tail"},
 		{":n!u@h PRIVMSG #c :" + long(4090), ":n!u@h PRIVMSG #c :" + long(4096), ":n!u@h PRIVMSG #c :" + long(5000) + " end", ":n!u@h PRIVMSG #c :short"},
+		{":nick!user PRIVMSG #c :no host", ":nick@host PRIVMSG #c :no ident", ":server.example.org NOTICE me :plain", ":n!u@h PRIVMSG #c :full", ":nick!user QUIT", ":nick@host JOIN #c"},
+		{"@account=alice;time=2024-02-03T04:05:06.789Z :a!b@c PRIVMSG #c :tagged", ":a!b@c PRIVMSG #c :untagged right after", "@+x=y :srv NOTICE me :tagged again", "PING-LIKE untagged", ":a!b@c NOTICE me :untagged"},
 		{":dan!~d@h NICK Dan", ":Dan!~d@h PRIVMSG #c :same identity, other spelling", ":DAN!~D@H PRIVMSG #c :and another", ":dan!~d@h PRIVMSG #c :back"},
 	}
 	for _, ls := range sets {
@@ -127,7 +141,12 @@ func runC02Wire(c *Ctx) {
 			in[fmt.Sprintf("l%d", i)] = l
 		}
 		c.run("wireparse", in)
-		c.R.Traces++
+		in2 := map[string]string{"paced": "1"}
+		for k, v := range in {
+			in2[k] = v
+		}
+		c.run("wireparse", in2)
+		c.R.Traces += 2
 	}
 	// neighbouring lines whose prefixes / tags / commands differ only in letter case or in one byte
 	variants := []string{":dan!~d@h", ":Dan!~d@h", ":DAN!~D@H", ":dan!~d@H", ":d[x]!u@h", ":D{X}!u@h", "@a=b :dan!~d@h", "@A=b :dan!~d@h", "@a=B :Dan!~d@h", ":srv.example.org", ":SRV.example.org"}
